@@ -20,6 +20,10 @@ counted from there (clock k = k-th cycle with cs & clk_en).
                  where the memory drives it; never for register writes)
   write_clocked  every write word is clocked (clk_en) with CS asserted; write_ready only in write transactions,
                  read_ready only in read transactions
+
+Finding on the unchanged tree (scenario predicate kf_request_right_after_register_write): register writes return to
+IDLE without passing RECOVERY; if start_transfer is high in that first idle cycle the next transaction starts with CS
+still asserted (CS is never released between the two transactions).
 """
 from amaranth import *
 from ..harness import Harness
